@@ -72,9 +72,26 @@ def owned_pointer_sources(fn):
     return out
 
 
-def ownership_event(e, vid):
+def aliases_of(fn, vid):
+    """locals bound by reference (or pointer) to the owned object or one of its members: `const T & x = obj->field;`"""
+    out = set()
+    for n in walk(fn['body'], into_lambda=False):
+        if n.get('k') == 'Decl':
+            for v in n['vars']:
+                t = v.get('t', '')
+                if (t.endswith('&') or t.endswith('*')) and v.get('init') is not None and v['id'] != vid:
+                    if any(x.get('k') == 'Ref' and x.get('id') == vid for x in walk(v['init'])):
+                        init = strip_all_casts(v['init'])
+                        # a plain copy of the pointer value (T * p = obj) is an alias as well
+                        out.add(v['id'])
+    return out
+
+
+def ownership_event(e, vid, aliases=()):
     """classify an event w.r.t. owned pointer vid: 'sink' (transfer/delete/return), 'use', or None"""
     n = e.get('n')
+    if aliases and e['ev'] == 'use' and n.get('k') == 'Ref' and n.get('id') in aliases:
+        return 'use', 'alias ' + str(n.get('name'))
     if e['ev'] == 'delete' and local_id(n.get('sub')) == vid:
         return 'sink', 'delete'
     if e['ev'] == 'return' and n.get('value') is not None and local_id(n['value']) == vid:
@@ -121,16 +138,22 @@ def O1O2(F, rep, FL, fnames, rules=('O1', 'O2')):
                     continue
                 null_path = False
                 sinks = []
+                al = aliases_of(fn, vid)
                 for i in range(start, len(evs)):
                     e = evs[i]
                     if e['ev'] == 'branch':
                         t = is_null_test(e['n'], vid)
                         if t is not None and (t == e['taken']):
                             null_path = True
-                    oe = ownership_event(e, vid)
+                    if e['ev'] == 'decl' and e['var']['id'] in al:
+                        continue   # binding the alias is not a use after the sink (it happens before)
+                    oe = ownership_event(e, vid, al)
                     if oe is None:
                         continue
                     if oe[0] == 'sink':
+                        if sinks and sinks[0][1] != 'return' and bad_o1 is None:
+                            # touching (deleting, handing over again) an object that already belongs to somebody else
+                            bad_o1 = (oe[1] + ' again', e.get('l'), sinks[0], evs)
                         sinks.append((i, oe[1], e.get('l')))
                     elif oe[0] == 'use' and sinks and bad_o1 is None:
                         bad_o1 = (oe[1], e.get('l'), sinks[-1], evs)
@@ -612,6 +635,11 @@ def H1(F, rep, FL):
             commits = [i for i, e in enumerate(evs) if e['ev'] == 'call' and e['n'].get('fn') == 'write' and
                        (recv_root(e['n']) == sink or any(field_root(member_path(a)) == sink for a in e['n'].get('args', [])))]
             if not commits:
+                # nothing committed on this path: nothing may be counted either
+                stray = [e for e in evs if e['ev'] == 'assign' and _assign_target(e['n']) == counter]
+                if stray:
+                    bad = ('%s is updated (line %s) on a path that commits no %s' % (counter, stray[0].get('l'), kind), evs)
+                    break
                 continue
             n += 1
             bumps = [e for e in evs if e['ev'] == 'assign' and _assign_target(e['n']) == counter]
@@ -1549,7 +1577,7 @@ def K11(F, rep, R, FL):
     runs) that calls a position / size getter of a stage (tellg, tellp, fileSize, gcount, size) decides on a snapshot that another
     thread changes concurrently - the outcome, and with it the produced file or the delivered sequence, depends on the schedule.
     good() / eof() report the outcome of the worker's own last blocking operation and are the accepted idiom."""
-    GETTERS = ('tellg', 'tellp', 'fileSize', 'gcount', 'size', 'defaultLogContainerSize')
+    GETTERS = None   # any method of a stage: what matters is which members it reports and who changes them
     for q, t in sorted(R.threads.items()):
         role = 'T:' + q.split('::')[-1]
         fns = {q}
@@ -1569,13 +1597,16 @@ def K11(F, rep, R, FL):
                     for c in conds:
                         c2 = deep_resolve(c, fn) if c is not None else None
                         for x in walk(c2 or {}):
-                            if x.get('k') == 'Call' and x.get('ck') == 'member' and x.get('fn') in GETTERS and recv_root(x) in R.stages:
+                            if x.get('k') == 'Call' and x.get('ck') == 'member' and recv_root(x) in R.stages and \
+                                    len([p_ for p_ in (member_path(x.get('obj')) or ()) if not p_.startswith('$')]) == 1:
                                 st = recv_root(x)
                                 cls = R.stages[st]
                                 # which member does the getter report, and which methods of the class change it?
-                                gfn = [f for f in F.functions.get(x.get('callee'), [])]
+                                gfn = [f for f in F.functions.get(x.get('callee'), []) if f['sig'] == x.get('csig')]
                                 reported = {m_.get('name') for f in gfn for m_ in walk(f['body']) if m_.get('k') == 'Member' and m_.get('dk') == 'field'} - {'m_mutex'}
-                                from rules_pipeline import writes_fields
+                                from rules_pipeline import writes_fields, guarded_fields
+                                if any(writes_fields(f, set(guarded_fields(F, cls)[0])) for f in gfn):
+                                    continue   # a transfer operation (it changes the stage), not a snapshot getter
                                 writers = {f['name'] for f in methods_of(F, cls) if f.get('kind') not in ('ctor', 'dtor') and writes_fields(f, reported)}
                                 # is one of those methods called by another role concurrently in this mode?
                                 others = {cc['role'] for cc in R.calls if cc['stage'] == st and cc['phase'] == 'concurrent' and cc['callee'] in writers and
